@@ -49,14 +49,17 @@ fn state_name(s: &WriteState) -> &'static str {
 }
 
 fn conn(toks: &[&str]) -> String {
-    session(0, toks)
+    session(0, toks, 'H')
 }
 
 fn sess(toks: &[&str]) -> String {
-    session(toks[0].parse().unwrap(), &toks[1..])
+    session(toks[0].parse().unwrap(), &toks[1..], 'H')
 }
 
-fn session(k: usize, toks: &[&str]) -> String {
+/// `rs`: the read side of the connection when the response under test is written -- H: the request was read to
+/// its end (ReadState::Head), B: its body is unread, S: shut down (an unknown-length body was read to the end of
+/// the stream).  What a failed write does to the WRITE side must not depend on it.
+fn session(k: usize, toks: &[&str], rs: char) -> String {
     let mut pre = Vec::new();
     let mut at = 0;
     for _ in 0..k {
@@ -92,6 +95,13 @@ fn session(k: usize, toks: &[&str]) -> String {
     }
     if hc.write_state == WriteState::None || k == 0 {
         hc.write_state = WriteState::Response;
+    }
+    match rs {
+        'B' => {
+            hc.read_state = servlin::internal::ReadState::Body { len: Some(5), expect_continue: false, chunked: false, gzip: false };
+        }
+        'S' => hc.read_state = servlin::internal::ReadState::Shutdown,
+        _ => {}
     }
     let res1 = futures_lite::future::block_on(hc.write_response(&built.response));
     let st1 = state_name(&hc.write_state);
@@ -139,6 +149,8 @@ fn main() {
     run_lines(|toks| match toks[0] {
         "ser" => ser(&toks[1..]),
         "conn" => conn(&toks[1..]),
+        "connB" => session(0, &toks[1..], 'B'),
+        "connS" => session(0, &toks[1..], 'S'),
         "sess" => sess(&toks[1..]),
         _ => "?".to_string(),
     });
